@@ -2,6 +2,7 @@ package sx
 
 import (
 	"fmt"
+	"sync"
 	"unicode"
 	"go/types"
 	"regexp"
@@ -317,10 +318,15 @@ func (m *Machine) track(roots []value) {
 
 // ---------- regexp on symbolic strings ----------
 
-var minLenCache = map[*regexp.Regexp]int{}
+var (
+	minLenMu    sync.Mutex
+	minLenCache = map[string]int{}
+)
 
 func regexMinLen(re *regexp.Regexp) int {
-	if n, ok := minLenCache[re]; ok {
+	minLenMu.Lock()
+	defer minLenMu.Unlock()
+	if n, ok := minLenCache[re.String()]; ok {
 		return n
 	}
 	parsed, err := syntax.Parse(re.String(), syntax.Perl)
@@ -328,7 +334,7 @@ func regexMinLen(re *regexp.Regexp) int {
 	if err == nil {
 		n = minLen(parsed.Simplify())
 	}
-	minLenCache[re] = n
+	minLenCache[re.String()] = n
 	return n
 }
 
